@@ -24,6 +24,11 @@ from wordseg import utils
 from wordseg.separator import Separator
 
 
+# placeholder for "no matching word" in the type evaluation. It must not be a
+# string: any string, including '_', can be a word of the lexicon.
+_NO_MATCH = None
+
+
 class TokenEvaluation:
     """Evaluation of token f-score, precision and recall"""
     def __init__(self):
@@ -58,11 +63,12 @@ class TokenEvaluation:
             self.n_exactmatch += 1
 
         # omit empty items for type scoring (should not affect token
-        # scoring). Type lists are prepared with '_' where there is no
-        # match, to keep list lengths the same
-        self.test += len([x for x in test_set if x != '_'])
-        self.gold += len([x for x in gold_set if x != '_'])
-        self.correct += len(test_set & gold_set)
+        # scoring). Type lists are prepared with a placeholder where
+        # there is no match, to keep list lengths the same
+        self.test += len([x for x in test_set if x is not _NO_MATCH])
+        self.gold += len([x for x in gold_set if x is not _NO_MATCH])
+        self.correct += len(
+            [x for x in test_set & gold_set if x is not _NO_MATCH])
 
     def update_lists(self, test, gold):
         """Update evaluation for a suite of utterances"""
@@ -91,14 +97,14 @@ class TypeEvaluation(TokenEvaluation):
                 # false positives
                 textlist.append(w)
                 # ensure matching null element in text list
-                goldlist.append('_')
+                goldlist.append(_NO_MATCH)
 
         for w in goldlex:
             if w not in goldlist:
                 # now for the false negatives
                 goldlist.append(w)
                 # ensure matching null element in text list
-                textlist.append('_')
+                textlist.append(_NO_MATCH)
 
         textset = [{w} for w in textlist]
         goldset = [{w} for w in goldlist]
